@@ -605,6 +605,30 @@ def run(run):
                 ex.assignments = saved_assignments
                 ex.names = frozenset({"x", "y"})
                 ex.examine(src, "history", {"dropped": b})
+        # ---- history with ANOTHER evaluator object: an evaluator constructed with extra functions (a documented
+        # constructor argument) compiles something; afterwards the default evaluator — a different object, the one sweeps
+        # use — must still confine calls to the documented whitelist (nothing may leak through shared class state)
+        import math as _math
+
+        extra = {"len": len, "sqrt": _math.sqrt, "ord": ord, "sum": sum, "sorted": sorted, "getattr": getattr}
+        try:
+            other = ex.safe_eval.ExpressionEvaluator(allowed_funcs=dict(extra))
+            for src0 in ("len(x)", "sqrt(x) + 1", "x + y", "max(x, sum(y))"):
+                try:
+                    other.compile(src0, {"x", "y"})
+                except Exception:
+                    pass
+            run.count("history_other_evaluator_built")
+        except TypeError:
+            run.count("history_other_evaluator_not_constructible")
+        ex.names = frozenset({"x", "y"})
+        for f in extra:
+            for shape in ("{f}(x)", "max(x, {f}(y))", "float({f}(str(x)))", "round(x, ndigits={f}(y))", "x if {f}(x) else y",
+                          "abs(-{f}(x))"):
+                ex.examine(shape.format(f=f), "history", {"after_evaluator_with_extra_funcs": f})
+        ex.ev = ex.safe_eval.ExpressionEvaluator()      # a default evaluator created AFTER that history
+        for f in extra:
+            ex.examine(f"{f}(x)", "history", {"fresh_default_evaluator_after_extra_funcs": f})
         ex.names = saved
     except BaseException:
         complete = False
